@@ -400,6 +400,9 @@ impl Sim {
                 Some(open) if *open => {
                     *open = false;
                     shims::raw_close(fd);
+                    if fd == 0 {
+                        self.restore_stdin();
+                    }
                     0
                 }
                 Some(_) => -libc::EBADF,
